@@ -282,6 +282,9 @@ struct Oracle<'a> {
     /// program points that are never reached because a scripted panic unwinds past them
     unwound: HashSet<(u32, Point)>,
     n_panics_caught: u64,
+    n_cancelled: u64,
+    n_cancelled_unpolled: u64,
+    n_cancelled_unsampled: u64,
     n_setup_control: u64,
     n_ended_by_complete_with: u64,
     n_ended_by_complete_with_unsampled: u64,
@@ -356,6 +359,7 @@ fn via_name(v: &Via) -> &'static str {
         Via::Header { spec, .. } => header_kind(spec),
         Via::Remote => "remote",
         Via::Catch => "catch",
+        Via::Cancel { .. } => "cancelled-future",
     }
 }
 
@@ -393,6 +397,9 @@ impl<'a> Oracle<'a> {
             found: Vec::new(),
             unwound: HashSet::new(),
             n_panics_caught: 0,
+            n_cancelled: 0,
+            n_cancelled_unpolled: 0,
+            n_cancelled_unsampled: 0,
             n_setup_control: 0,
             n_ended_by_complete_with: 0,
             n_ended_by_complete_with_unsampled: 0,
@@ -518,6 +525,7 @@ impl<'a> Oracle<'a> {
             self.unwound.insert((node.id, Point::Exit));
             self.unwound.insert((node.id, Point::After(last)));
             self.unwound.insert((node.id, Point::ViaOut(last)));
+            self.unwound.insert((node.id, Point::Resume(last)));
         }
         if matches!(node.variant, Variant::ExplicitTrace(_)) {
             self.n_explicit += 1;
@@ -888,6 +896,31 @@ impl<'a> Oracle<'a> {
                             }
                             inside
                         }
+                        Via::Cancel { polls } => {
+                            // the child's future was polled `polls` times and dropped: spans of the chain
+                            // complete inside their frames (sampled: one event each with their own ids;
+                            // unsampled: nothing), and the `After` read must show the traceparent restored
+                            match self.run.caught.iter().find(|(n, s, _)| *n == node.id && *s == i) {
+                                Some((_, _, false)) => {}
+                                other => self.bad(
+                                    "interpreter:cancelled-future-finished-or-missing".into(),
+                                    format!("node {} step {}: {:?}", node.id, i, other),
+                                ),
+                            }
+                            if *polls == 0 {
+                                if self.obs.contains_key(&(child.id, Point::Enter)) {
+                                    self.bad("cancelled:never-polled-future-ran".into(), format!("node {} ran although its future was never polled", child.id));
+                                }
+                                self.n_cancelled_unpolled += 1;
+                                self.expect_tp(node.id, Point::After(i), &inside, true, "cancelled:traceparent-not-restored:after-dropping-an-unpolled-future");
+                                continue;
+                            }
+                            self.n_cancelled += 1;
+                            if !inside.sampled() && inside.valid() {
+                                self.n_cancelled_unsampled += 1;
+                            }
+                            inside
+                        }
                         Via::Props { .. } | Via::TraceOnly { .. } => unreachable!("not generated for C18"),
                     };
                     self.walk(child, &child_outer, vn);
@@ -1024,6 +1057,9 @@ fn eval<X: Env>(r: &mut Report, in_sampled: bool, seed: u64, index: u64, tree: &
     }
     r.observe("remote-hops", o.n_remote);
     r.observe("panics-unwound-and-caught", o.n_panics_caught);
+    r.observe("futures-cancelled-while-suspended", o.n_cancelled);
+    r.observe("futures-cancelled-while-suspended-in-an-unsampled-trace", o.n_cancelled_unsampled);
+    r.observe("futures-dropped-without-a-poll", o.n_cancelled_unpolled);
     r.observe("spans-with-a-setup-fn-that-touches-nothing", o.n_setup_control);
     r.observe("spans-ended-through-complete_with", o.n_ended_by_complete_with);
     r.observe("spans-ended-through-complete_with-in-unsampled-trace", o.n_ended_by_complete_with_unsampled);
